@@ -203,6 +203,20 @@ func (fr *Frame) defaultCall(st *State, call ssa.CallInstruction, key string, si
 		res = append(res, r)
 	}
 	fr.assumeIdiom(st, sig, res, key)
+	if fn != nil && !isModuleFunc(fn) && n >= 1 && !(n >= 2 && isErrorType(sig.Results().At(n-1).Type())) {
+		// external constructors / getters without an error result return usable values
+		for i := 0; i < n; i++ {
+			rt := sig.Results().At(i).Type()
+			if isErrorType(rt) {
+				continue
+			}
+			switch vc.sortOf(rt) {
+			case "Ref", "Val":
+				vc.trusted[res[i]] = true
+				vc.Assumed["external function without error result returns non-nil: "+key] = true
+			}
+		}
+	}
 	return res
 }
 
@@ -532,6 +546,11 @@ func (fr *Frame) invoke(st *State, call ssa.CallInstruction) []Term {
 	}
 	vc.recordCallSyms(mkey, sig, res)
 	fr.assumeIdiom(st, sig, res, mkey)
+	if n := sig.Results().Len(); n >= 1 && !isErrorType(sig.Results().At(n-1).Type()) {
+		for _, r := range res {
+			vc.trusted[r] = true
+		}
+	}
 	return res
 }
 
@@ -540,6 +559,10 @@ func (fr *Frame) pureMethod(st *State, m *types.Func, recv Term, args []Term) []
 	vc := fr.vc
 	res := vc.pureMethodTerms(st, m, recv, args)
 	fr.pureMethodIdiom(st, m, res)
+	// configuration getters: results are trusted like entry-state values (see DESIGN: nil policy)
+	for _, r := range res {
+		vc.trusted[r] = true
+	}
 	return res
 }
 
